@@ -1,6 +1,6 @@
 (* HandoverProofs.v — every interleaving of any number of rotations, flushes and queries:
    a query returns every block that was flushed before it began exactly once. *)
-From Coq Require Import Lia.
+From Coq Require Import Lia Bool.
 From SigM Require Import Base Handover.
 Open Scope nat_scope.
 
@@ -337,4 +337,289 @@ Proof.
            unfold upds; destruct (Nat.eqb u q); try apply Hq; try reflexivity. }
     apply G; auto.
     apply Forall_forall. intros a Ha. apply filter_In in Ha. tauto.
+Qed.
+
+(* ------------------------------------------------------------------------------------------
+   Lock discipline (one writer-preferring reader/writer lock, any number of goroutines).
+   Goroutines whose calls are non-reentrant lock programs can always move until all of them have
+   finished; a goroutine that takes the read lock again while it holds it can be stopped for ever
+   by one writer. *)
+
+Lemma lscan_app m p q : lscan m p = true -> lscan LFree q = true -> lscan m (p ++ q) = true.
+Proof.
+  revert m. induction p as [|a p IH]; intros m Hp Hq; cbn in *.
+  - destruct m; try discriminate. exact Hq.
+  - destruct m, a; try discriminate; apply IH; auto.
+Qed.
+
+Lemma nonreentrant_concat calls :
+  (forall c, In c calls -> nonreentrant c = true) -> nonreentrant (concat calls) = true.
+Proof.
+  induction calls as [|c calls IH]; intros H; cbn; [reflexivity|].
+  apply lscan_app; [apply H; now left|]. apply IH. intros d Hd. apply H. now right.
+Qed.
+
+(* the local state of a goroutine agrees with the position in its program *)
+Definition tinv (t : thr) : bool :=
+  match hr t, hw t, pend t with
+  | 0, false, false => lscan LFree (tprog t)
+  | 1, false, false => lscan LHeldR (tprog t)
+  | 0, true, false => lscan LHeldW (tprog t)
+  | 0, false, true => match tprog t with WAcq :: _ => lscan LFree (tprog t) | _ => false end
+  | _, _, _ => false
+  end.
+Definition tinvs (ts : list thr) : Prop := Forall (fun t => tinv t = true) ts.
+
+Lemma tinv_fire t : tinv t = true -> tinv (fire t) = true.
+Proof.
+  destruct t as [p r w pe]. unfold tinv, fire; cbn.
+  destruct r as [|[|r]], w, pe; try discriminate; destruct p as [|[] p]; cbn; try discriminate; auto.
+Qed.
+
+Lemma Forall_set_nth {A} (P : A -> Prop) i x (l : list A) : Forall P l -> P x -> Forall P (set_nth i x l).
+Proof.
+  revert i. induction l as [|y l IH]; intros i Hl Hx; cbn; [destruct i; constructor|].
+  inversion Hl; subst. destruct i; constructor; auto.
+Qed.
+
+Lemma lstep_inv ts i : tinvs ts -> tinvs (lstep ts i).
+Proof.
+  intros H. unfold lstep. destruct (nth_error ts i) as [t|] eqn:E; [|exact H].
+  destruct (enabled ts t); [|exact H].
+  apply Forall_set_nth; [exact H|]. apply tinv_fire.
+  apply nth_error_In in E. unfold tinvs in H. rewrite Forall_forall in H. now apply H.
+Qed.
+
+Lemma lrun_inv sched : forall ts, tinvs ts -> tinvs (lrun ts sched).
+Proof.
+  induction sched as [|i sched IH]; intros ts H; cbn; [exact H|]. apply IH. now apply lstep_inv.
+Qed.
+
+Lemma linit_inv threads :
+  (forall calls c, In calls threads -> In c calls -> nonreentrant c = true) -> tinvs (linit threads).
+Proof.
+  intros H. unfold tinvs, linit. apply Forall_forall. intros t Ht. apply in_map_iff in Ht.
+  destruct Ht as [calls [<- Hin]]. unfold tinv, thr_init; cbn.
+  apply nonreentrant_concat. intros c Hc. eapply H; eauto.
+Qed.
+
+Lemma readers_pos ts : readers ts <> 0 -> exists u, In u ts /\ hr u <> 0.
+Proof.
+  induction ts as [|t ts IH]; cbn; intros H; [congruence|].
+  destruct (hr t) eqn:E.
+  - destruct IH as [u [Hu Hr]]; [exact H|]. exists u. split; [now right|exact Hr].
+  - exists t. split; [now left|]. congruence.
+Qed.
+
+(* PROGRESS: while some goroutine has not finished, some goroutine can move *)
+Lemma progress_inv ts : tinvs ts -> all_finished ts = false -> existsb (enabled ts) ts = true.
+Proof.
+  intros Hinv Hnf. unfold tinvs in Hinv. rewrite Forall_forall in Hinv.
+  apply existsb_exists.
+  destruct (existsb hw ts) eqn:Ehw.
+  { (* a writer is inside: it can leave *)
+    apply existsb_exists in Ehw. destruct Ehw as [t [Ht Hw]]. exists t. split; [exact Ht|].
+    specialize (Hinv t Ht). destruct t as [p r w pe]. cbn in Hw. subst w.
+    unfold tinv in Hinv; unfold enabled; cbn in *.
+    destruct r as [|[|r]], pe; try discriminate; destruct p as [|[] p]; cbn in Hinv; try discriminate; reflexivity. }
+  destruct (existsb pend ts) eqn:Epe.
+  { (* a writer has announced itself *)
+    apply existsb_exists in Epe. destruct Epe as [t [Ht Hp]].
+    destruct (Nat.eqb (readers ts) 0) eqn:Er.
+    - exists t. split; [exact Ht|]. specialize (Hinv t Ht). destruct t as [p r w pe]. cbn in Hp. subst pe.
+      unfold tinv in Hinv; unfold enabled; cbn in *.
+      destruct r as [|[|r]], w; try discriminate; destruct p as [|[] p]; try discriminate; exact Er.
+    - apply Nat.eqb_neq in Er. destruct (readers_pos ts Er) as [u [Hu Hr]]. exists u. split; [exact Hu|].
+      specialize (Hinv u Hu). destruct u as [p r w pe]. cbn in Hr. unfold tinv in Hinv; unfold enabled; cbn in *.
+      destruct r as [|[|r]], w, pe; try discriminate; try congruence;
+      destruct p as [|[] p]; cbn in Hinv; try discriminate; reflexivity. }
+  (* no writer around: whoever has something left to do can do it *)
+  assert (Hb : wbusy ts = false).
+  { unfold wbusy. destruct (existsb (fun t => hw t || pend t) ts) eqn:E; [|reflexivity].
+    apply existsb_exists in E. destruct E as [t [Ht Hor]]. apply Bool.orb_true_iff in Hor. destruct Hor as [Hw|Hp].
+    - assert (existsb hw ts = true) by (apply existsb_exists; eauto). congruence.
+    - assert (existsb pend ts = true) by (apply existsb_exists; eauto). congruence. }
+  unfold all_finished in Hnf.
+  assert (Hex : exists t, In t ts /\ tfinished t = false).
+  { clear -Hnf. induction ts as [|t ts IH]; cbn in Hnf; [discriminate|].
+    destruct (tfinished t) eqn:E; cbn in Hnf.
+    - destruct (IH Hnf) as [u [Hu Hf]]. exists u. split; [now right|exact Hf].
+    - exists t. split; [now left|exact E]. }
+  destruct Hex as [t [Ht Hf]]. exists t. split; [exact Ht|].
+  assert (Hwt : hw t = false).
+  { destruct (hw t) eqn:E; [|reflexivity]. assert (existsb hw ts = true) by (apply existsb_exists; eauto). congruence. }
+  assert (Hpt : pend t = false).
+  { destruct (pend t) eqn:E; [|reflexivity]. assert (existsb pend ts = true) by (apply existsb_exists; eauto). congruence. }
+  specialize (Hinv t Ht). destruct t as [p r w pe]. cbn in Hwt, Hpt, Hf. subst w pe.
+  unfold tinv in Hinv; cbn in Hinv. unfold enabled; cbn. rewrite Hb.
+  unfold tfinished in Hf; cbn in Hf.
+  destruct r as [|[|r]]; [| |discriminate]; destruct p as [|[] p]; cbn in Hinv; try discriminate; reflexivity.
+Qed.
+
+Theorem lock_progress threads sched :
+  (forall calls c, In calls threads -> In c calls -> nonreentrant c = true) ->
+  stuck (lrun (linit threads) sched) = false.
+Proof.
+  intros H. unfold stuck.
+  destruct (all_finished (lrun (linit threads) sched)) eqn:E; [reflexivity|]. cbn.
+  rewrite progress_inv; [reflexivity| |exact E]. apply lrun_inv. now apply linit_inv.
+Qed.
+
+(* COMPLETION: from every reachable state the goroutines can all be run to their end *)
+Definition tmeas (t : thr) : nat := 2 * length (tprog t) + (if pend t then 0 else 1).
+Fixpoint meas (ts : list thr) : nat := match ts with [] => 0 | t :: r => tmeas t + meas r end.
+
+Lemma tmeas_fire t : tinv t = true -> tprog t <> [] -> tmeas (fire t) < tmeas t.
+Proof.
+  destruct t as [p r w pe]. unfold tinv, fire, tmeas; cbn. intros Hi Hp.
+  destruct p as [|a p]; [congruence|].
+  destruct a, pe; cbn; try lia.
+  (* RRel / RAcq / WRel while pending contradict the invariant *)
+  all: destruct r as [|[|r]], w; cbn in Hi; try discriminate; try lia.
+Qed.
+
+Lemma meas_set_nth ts : forall i t t', nth_error ts i = Some t -> tmeas t' < tmeas t -> meas (set_nth i t' ts) < meas ts.
+Proof.
+  induction ts as [|y ts IH]; intros i t t' E Hl; [destruct i; discriminate|].
+  destruct i; cbn in *.
+  - inversion E; subst. lia.
+  - specialize (IH i t t' E Hl). lia.
+Qed.
+
+Lemma completion_inv n : forall ts, tinvs ts -> meas ts <= n -> exists sched, all_finished (lrun ts sched) = true.
+Proof.
+  induction n as [|n IH]; intros ts Hinv Hm.
+  all: destruct (all_finished ts) eqn:E; [exists []; exact E|].
+  all: pose proof (progress_inv ts Hinv E) as Hp; apply existsb_exists in Hp; destruct Hp as [t [Ht Hen]].
+  all: destruct (In_nth_error ts t Ht) as [i Hi].
+  all: assert (Hne : tprog t <> []) by (unfold enabled in Hen; destruct (tprog t); [discriminate|congruence]).
+  all: assert (Hti : tinv t = true) by (unfold tinvs in Hinv; rewrite Forall_forall in Hinv; now apply Hinv).
+  all: pose proof (meas_set_nth ts i t (fire t) Hi (tmeas_fire t Hti Hne)) as Hd.
+  - lia.
+  - destruct (IH (lstep ts i)) as [sched Hs].
+    + now apply lstep_inv.
+    + unfold lstep. rewrite Hi, Hen. lia.
+    + exists (i :: sched). exact Hs.
+Qed.
+
+Lemma lrun_app ts a b : lrun ts (a ++ b) = lrun (lrun ts a) b.
+Proof. unfold lrun. apply fold_left_app. Qed.
+
+Theorem lock_completion threads sched :
+  (forall calls c, In calls threads -> In c calls -> nonreentrant c = true) ->
+  exists rest, all_finished (lrun (linit threads) (sched ++ rest)) = true.
+Proof.
+  intros H.
+  destruct (completion_inv (meas (lrun (linit threads) sched)) (lrun (linit threads) sched)) as [rest Hr].
+  - apply lrun_inv. now apply linit_inv.
+  - lia.
+  - exists rest. now rewrite lrun_app.
+Qed.
+
+(* a stuck state stays as it is whatever the scheduler tries: a deadlock, not a delay *)
+Lemma stuck_forever ts : stuck ts = true -> forall sched, lrun ts sched = ts.
+Proof.
+  intros Hs sched. induction sched as [|i sched IH]; [reflexivity|]. cbn.
+  assert (E : lstep ts i = ts).
+  { unfold lstep. destruct (nth_error ts i) as [t|] eqn:En; [|reflexivity].
+    destruct (enabled ts t) eqn:Ee; [|reflexivity].
+    unfold stuck in Hs. apply Bool.andb_true_iff in Hs. destruct Hs as [_ Hs].
+    apply Bool.negb_true_iff in Hs.
+    assert (existsb (enabled ts) ts = true) by (apply existsb_exists; exists t; split; [eapply nth_error_In; eauto|exact Ee]).
+    congruence. }
+  rewrite E. exact IH.
+Qed.
+
+(* RECURSIVE READ LOCK: a goroutine whose call takes the read lock while it already holds it
+   (GetTotalBlocksInSegments calling GetNumBlocksInSegment in seeded/C11d) and ONE writer: after the
+   outer RLock and the writer's announcement nobody can ever move again.  Every call of the writer,
+   and every call of the reader in a run without writers, is harmless — which is why sequential
+   tests and reader-only stress do not see it. *)
+Theorem recursive_read_lock_refuted :
+  exists (reader writer : list lact) (sched : list nat),
+    nonreentrant reader = false /\ nonreentrant writer = true /\
+    let ts := lrun (linit [[reader]; [writer]]) sched in
+    stuck ts = true /\ (forall more, lrun ts more = ts) /\
+    (* the same reader, alone or with other readers, always finishes *)
+    (exists s1, all_finished (lrun (linit [[reader]; [reader]]) s1) = true).
+Proof.
+  exists [RAcq; RAcq; RRel; RRel], [WAcq; WRel], [0; 1].
+  split; [reflexivity|]. split; [reflexivity|]. cbv zeta.
+  assert (S : stuck (lrun (linit [[[RAcq; RAcq; RRel; RRel]]; [[WAcq; WRel]]]) [0; 1]) = true) by (vm_compute; reflexivity).
+  split; [exact S|]. split; [exact (stuck_forever _ S)|].
+  exists [0; 1; 0; 1; 0; 1; 0; 1]. vm_compute. reflexivity.
+Qed.
+
+(* MUTUAL EXCLUSION (the lock model is a lock): in every reachable state at most one goroutine is
+   inside a write section, and then nobody is inside a read section — what makes each step of the
+   hand-over model atomic.  No premise on the programs. *)
+Lemma sumf_set_nth f ts : forall i t t', nth_error ts i = Some t ->
+  sumf f (set_nth i t' ts) + f t = sumf f ts + f t'.
+Proof.
+  induction ts as [|y ts IH]; intros i t t' E; [destruct i; discriminate|].
+  destruct i; cbn in *.
+  - inversion E; subst. lia.
+  - specialize (IH i t t' E). lia.
+Qed.
+
+Lemma readers_sumf ts : readers ts = sumf hr ts.
+Proof. induction ts; cbn; auto. Qed.
+
+Lemma wbusy_false_sum ts : wbusy ts = false -> sumf busyn ts = 0.
+Proof.
+  unfold wbusy. induction ts as [|t ts IH]; cbn; intros H; [reflexivity|].
+  apply orb_false_iff in H. destruct H as [H1 H2]. unfold busyn at 1. rewrite H1. cbn. auto.
+Qed.
+
+Lemma hwn_le_busyn ts : sumf hwn ts <= sumf busyn ts.
+Proof. induction ts as [|t ts IH]; cbn; [lia|]. unfold hwn at 1, busyn at 1. destruct (hw t), (pend t); cbn; lia. Qed.
+
+Lemma sumf_ge f ts t : In t ts -> f t <= sumf f ts.
+Proof. induction ts as [|y ts IH]; cbn; intros H; [tauto|]. destruct H as [->|H]; [lia|]. specialize (IH H). lia. Qed.
+
+Definition xinv (ts : list thr) : Prop := sumf busyn ts <= 1 /\ (1 <= sumf hwn ts -> sumf hr ts = 0).
+
+Lemma lstep_xinv ts i : xinv ts -> xinv (lstep ts i).
+Proof.
+  intros [Hb Hr]. unfold lstep. destruct (nth_error ts i) as [t|] eqn:E; [|split; assumption].
+  destruct (enabled ts t) eqn:En; [|split; assumption].
+  pose proof (sumf_set_nth busyn ts i t (fire t) E) as Sb.
+  pose proof (sumf_set_nth hwn ts i t (fire t) E) as Sh.
+  pose proof (sumf_set_nth hr ts i t (fire t) E) as Sr.
+  pose proof (hwn_le_busyn ts) as Hle.
+  pose proof (hwn_le_busyn (set_nth i (fire t) ts)) as Hle'.
+  pose proof (sumf_ge hr ts t (nth_error_In _ _ E)) as Hge.
+  pose proof (sumf_ge busyn ts t (nth_error_In _ _ E)) as Hgb.
+  rewrite readers_sumf in En || idtac.
+  destruct t as [p r w pe]. unfold xinv, enabled, fire in *; cbn in *.
+  destruct p as [|a p]; [discriminate|].
+  destruct a; cbn in *.
+  - (* RAcq *) apply negb_true_iff in En. apply wbusy_false_sum in En.
+    unfold busyn, hwn in *; cbn in *. destruct w, pe; cbn in *; split; lia.
+  - (* RRel *) destruct r as [|r]; [discriminate|].
+    unfold busyn, hwn in *; cbn in *. destruct w, pe; cbn in *; split; lia.
+  - (* WAcq *) destruct pe.
+    + rewrite readers_sumf in En. apply Nat.eqb_eq in En.
+      unfold busyn, hwn in *; cbn in *. destruct w; cbn in *; split; lia.
+    + apply negb_true_iff in En. apply wbusy_false_sum in En.
+      unfold busyn, hwn in *; cbn in *. destruct w; cbn in *; split; lia.
+  - (* WRel *) subst w.
+    unfold busyn, hwn in *; cbn in *. destruct pe; cbn in *; split; lia.
+Qed.
+
+Lemma linit_xinv threads : xinv (linit threads).
+Proof.
+  unfold linit. induction threads as [|c threads [IH1 IH2]]; split; cbn; lia.
+Qed.
+
+Theorem lock_exclusion threads sched :
+  let ts := lrun (linit threads) sched in
+  writers_inside ts <= 1 /\ (writers_inside ts = 1 -> readers ts = 0).
+Proof.
+  cbv zeta. unfold writers_inside.
+  assert (H : xinv (lrun (linit threads) sched)).
+  { generalize (linit_xinv threads). generalize (linit threads). induction sched as [|i sched IH]; intros ts H; cbn; [exact H|].
+    apply IH. now apply lstep_xinv. }
+  destruct H as [Hb Hr]. pose proof (hwn_le_busyn (lrun (linit threads) sched)). split; [lia|].
+  intros E. rewrite readers_sumf. apply Hr. lia.
 Qed.
